@@ -499,11 +499,63 @@ def binding_selftest(rep, cells):
     rep.notes['trace_binding_selftest'] = 'a cell whose resumed offset is changed fails out=in; a cell whose written text is changed fails bytes=Encode(in)'
 
 
+_DEFAULT_PATH_SCRIPT = r"""
+import sys, os, shutil, json, io, contextlib
+sys.path.insert(0, sys.argv[1])
+sys.dont_write_bytecode = True
+import dataflows as DF
+os.makedirs(sys.argv[2]); os.chdir(sys.argv[2])
+runs = []
+def src():
+    runs.append(1)
+    yield from ({'a': i} for i in range(3))
+def go():
+    with contextlib.redirect_stdout(io.StringIO()):
+        return DF.Flow(src(), DF.checkpoint('n')).results()[0]
+r1 = go(); exists = os.path.isdir(os.path.join('.checkpoints', 'n')); r2 = go(); after_resume = len(runs)
+shutil.rmtree(os.path.join('.checkpoints', 'n'), ignore_errors=True); r3 = go()
+print(json.dumps(dict(exists=exists, after_resume=after_resume, runs=len(runs), same=(r1 == r2 == r3))))
+"""
+
+
+def default_path_case(item):
+    """checkpoint(name) with the DEFAULT checkpoint_path: '.checkpoints/<name>' of the directory the run is started in - also when that
+    is not the directory the library was imported in.  run / run (resumes) / delete the directory / run (computes again)"""
+    import subprocess
+    import sys
+    from ..common import REPO
+    root = tempfile.mkdtemp(prefix='c07d-', dir=tlc.WORK_ROOT)
+    try:
+        script = os.path.join(root, 'case.py')
+        open(script, 'w').write(_DEFAULT_PATH_SCRIPT)
+        p = subprocess.run([sys.executable, script, REPO, os.path.join(root, item['sub'])], cwd=root, stdout=subprocess.PIPE, stderr=subprocess.PIPE, text=True, timeout=300)
+        if p.returncode != 0:
+            return dict(ok=False, why='a run with the default checkpoint path raised', stderr=p.stderr[-300:])
+        out = json.loads(p.stdout.strip().splitlines()[-1])
+        if not out['exists']:
+            return dict(ok=False, why='the checkpoint was not saved under .checkpoints/<name> of the working directory', got=out)
+        if out['after_resume'] != 1:
+            return dict(ok=False, why='the second run executed the source although the checkpoint was there', got=out)
+        if out['runs'] != 2:
+            return dict(ok=False, why='after the checkpoint directory was removed the next run did not compute from the source again', got=out)
+        if not out['same']:
+            return dict(ok=False, why='the three runs returned different rows', got=out)
+        return dict(ok=True)
+    finally:
+        shutil.rmtree(root, ignore_errors=True)
+
+
 def run():
     rep = Report(PROP)
     t = rep.tier
     setup_repo()
     r = rng(PROP)
+    for it in (dict(default_path=True, sub='work'), dict(default_path=True, sub=os.path.join('deep', 'er'))):
+        out = default_path_case(it)
+        rep.count(1, traces=1)
+        rep.mark_distinct(it)
+        if not out['ok']:
+            rep.violation(it, dict(case=it, **{k: v for k, v in out.items() if k != 'ok'}), category='default-checkpoint-path/%s' % out['why'][:40])
     cases = model(rep, t)
     res = pmap(replay_history, cases, chunksize=4)
     errs = harness_errors(res)
@@ -579,7 +631,11 @@ def replay(path):
     setup_repo()
     rec = json.load(open(path))
     c = rec['case']
-    if 'tree' in c:
+    if c.get('default_path'):
+        out = default_path_case(c)
+        print(out)
+        bad = not out['ok']
+    elif 'tree' in c:
         out = replay_nested(c)
         print(out)
         bad = not out['ok']
